@@ -172,6 +172,17 @@ class Ctx:
         self.axioms = {"closed_under_global_context": closed,
                        "axiom_blocks": [a.strip() for a in axs]}
         self.coverage["discharged"] = len(thms)
+        if self.tier == "thorough":
+            # independent re-check of the compiled theorems and everything they depend on
+            with Lock("coq"):
+                rc, o, e = sh(["timeout", "2400", "coqchk", "-silent", "-o", "-Q", ".", "YV", "YV.Props.%s" % propfile], cwd=COQ, timeout=2500)
+            out2 = o + e
+            m = re.search(r"\* Axioms:(.*?)\n\s*\n\* Constants/Inductives relying on type-in-type:(.*?)\n", out2, re.S)
+            self.axioms["coqchk"] = {"rc": rc, "axioms": m.group(1).strip() if m else "?", "type_in_type": m.group(2).strip() if m else "?"}
+            self.coverage["checker_cmd"] += " + coqchk -silent -o YV.Props.%s" % propfile
+            if rc != 0 or not m or m.group(1).strip() != "<none>":
+                self.coverage["discharged"] = 0
+                return False, "coqchk (independent checker) rejects the development or reports axioms", out2[-3000:]
         return True, None, log
 
     def coq_eval(self, name, body, timeout=900):
